@@ -534,6 +534,7 @@ def c03(res):
 
 def c05(res):
     wd = workdir("C05")
+    res.models.append(prove("DualRingProof", wd))
     res.models.append(model_check("MC_Grad", "MC_Grad.cfg", wd, workers=8))
     progs = gen_programs(res, wd)
     trace = os.path.join(wd, "trace.ndjson")
